@@ -627,7 +627,6 @@ func (t *threads) FieldSubjects() []*subject {
 
 var configTypes = map[string]bool{"ProxyConfig": true, "ProxiesConfigure": true, "HostIp": true, "PreRouteItem": true}
 
-
 // mutexClass names the mutex of a struct type as lockClass does ("Type.field"): the one field whose type is sync.Mutex or
 // sync.RWMutex, embedded or named; fallback when there is none or several.
 func (w *World) mutexClass(typeName, fallback string) string {
